@@ -19,6 +19,7 @@ type kaStep struct {
 	Kind   string `json:"kind"`
 	Expect string `json:"expect"`
 	Fed    bool   `json:"fed"`
+	Prior  string `json:"prior"`
 }
 
 // runKeepAlive executes one client schedule against a fresh broker with KeepAlive = k seconds.
@@ -40,7 +41,20 @@ func runKeepAlive(steps []kaStep, k, req int, unit time.Duration) string {
 	if _, err := readPkt(wit.c, r.tmo); err != nil {
 		return "INFRA witness subscribe: " + err.Error()
 	}
-	a := bAct{K: "kacl", Clean: true, Ka: req, Will: bWill{On: true, T: "will/ka", Pl: "w1", Q: 0}}
+	clean := true
+	if len(steps) > 0 && steps[0].Prior == "long" {
+		// an earlier connection of the same client identifier (CleanSession 0, keep-alive 60 s) leaves a stored session
+		prev, err := r.rawConnect("c0", bAct{K: "kacl", Clean: false, Ka: 60})
+		if err != nil {
+			return "INFRA prior connect: " + err.Error()
+		}
+		prev.c.Write([]byte{0xe0, 0})
+		time.Sleep(30 * time.Millisecond)
+		prev.c.Close()
+		time.Sleep(30 * time.Millisecond)
+		clean = false
+	}
+	a := bAct{K: "kacl", Clean: clean, Ka: req, Will: bWill{On: true, T: "will/ka", Pl: "w1", Q: 0}}
 	if req == 0 {
 		a.Form = "ka0"
 	}
